@@ -161,3 +161,88 @@ def _mk(first: str):
 
 for _o in OPS:
     _mk(_o)
+
+
+# --------------------------------------------------------------------------- configuration objects inside a default
+@obligation(prop="C13", sites=("isolated",), regions=("config_object_in_default",), budget={"quick": 60, "thorough": 120},
+            encodes=["cincoconfig.fields.list_field.ListField.__setdefault__"],
+            what="a list of configurations whose declared default holds its items as maps or as configuration "
+                 "OBJECTS (config-type instance or schema instance; symbolic): mutating the item through one "
+                 "configuration is not visible through another one built before or after, nor in the declared default")
+def share_config_objects_in_default(as_object: bool, typed: bool, second_first: bool, x: int) -> bool:
+    """
+    pre: 1 <= x <= 9
+    post: _
+    """
+    from vf.hlib import known
+    item = Schema()
+    item.v = IntField(default=0)
+    Item = make_type_nt(item, "Item") if typed else item
+    schema = Schema()
+    first_default = Item() if as_object else {"v": 0}
+    schema.f = ListField(Item, default=[first_default])
+    known("config_object_in_default", as_object)
+    if second_first:
+        other = schema()
+        mine = schema()
+    else:
+        mine = schema()
+        other = schema()
+    mine.f[0].v = x
+    later = schema()
+    hold("isolated", mine.f[0].v == x, "the mutation itself was lost")
+    hold("isolated", other.f[0].v == 0, "item mutated through one configuration changed in another configuration")
+    hold("isolated", later.f[0].v == 0, "a configuration built afterwards sees the mutation")
+    d0 = schema.f.default[0]
+    hold("isolated", (d0.v if as_object else d0["v"]) == 0, "the declared default was altered")
+    return True
+
+
+# --------------------------------------------------------------------------- nested typed containers in a default
+@obligation(prop="C13", sites=("isolated",), budget={"quick": 120, "thorough": 240},
+            encodes=["cincoconfig.fields.list_field.ListField.__setdefault__", "cincoconfig.fields.list_field.ListField._validate",
+                     "cincoconfig.fields.dict_field.DictField.__setdefault__"],
+            what="typed containers nested in a typed container's declared default (list of typed lists, typed dict of "
+                 "typed lists; the inner list EMPTY or not, symbolic): appending to the inner list of one "
+                 "configuration shows neither in another configuration (built before or after), nor after a reset, "
+                 "nor in the declared default")
+def share_nested_typed_defaults(in_dict: bool, empty_inner: bool, second_first: bool, reset_first: bool, x: int) -> bool:
+    """
+    pre: 1 <= x <= 9
+    post: _
+    """
+    schema = Schema()
+    schema.ll = ListField(ListField(IntField()), default=[[], [1]])
+    schema.dl = DictField(StringField(), ListField(IntField()), default={"e": [], "n": [1]})
+    if second_first:
+        other = schema()
+        mine = schema()
+    else:
+        mine = schema()
+        other = schema()
+    if reset_first:
+        reset_value(mine, "ll")
+        reset_value(mine, "dl")
+    if in_dict:
+        inner = mine.dl["e" if empty_inner else "n"]
+    else:
+        inner = mine.ll[0 if empty_inner else 1]
+    inner.append(x)
+    base = [] if empty_inner else [1]
+    hold("isolated", list(inner) == base + [x], "the mutation itself was lost")
+    try:
+        inner.append("not a number")
+        typed_still = False
+    except ValueError:
+        typed_still = True
+    hold("isolated", typed_still, "the inner list of the default is not a validating typed list")
+    later = schema()
+    for label, c in (("another configuration", other), ("a configuration built afterwards", later)):
+        got = plain(c)
+        hold("isolated", got == {"ll": [[], [1]], "dl": {"e": [], "n": [1]}},
+             lambda: "%s sees the mutation: %r" % (label, got))
+    hold("isolated", schema.ll.default == [[], [1]] and schema.dl.default == {"e": [], "n": [1]},
+         "the declared default was altered")
+    reset_value(mine, "dl" if in_dict else "ll")
+    hold("isolated", plain(mine) == {"ll": [[], [1]], "dl": {"e": [], "n": [1]}}, "reset does not restore the declared default")
+    return True
